@@ -18,6 +18,7 @@ RULE = (
     "PathCollection offsets, Line2D data, limits, labels, legend texts, and nothing on the other axes. "
     "state = (input, options); transition = one plotting call; non-trivial = infinite deaths present, "
     "plot_only given, or the supplied axes is not the current one."
+    " Landscape plots also of compute=False objects, with one legend entry per plotted depth; the marked bottleneck pair is not the thinner line."
 )
 ASSUMPTIONS = ["only artists are inspected, not rendered pixels", "axis labels are checked case-insensitively for birth / death / life(time)"]
 
